@@ -1,6 +1,6 @@
 (* C03 -- NNX split/merge round-trips any object graph, preserving sharing and cycles. *)
 From Coq Require Import Permutation.
-From Flaxm Require Import Lib.Harness Model.NnxFilters Model.Graph Proofs.Graph.
+From Flaxm Require Import Lib.Harness Model.NnxFilters Model.Graph Model.UpdateCtx Proofs.Graph Proofs.UpdateCtx Proofs.GraphIso.
 
 (* merge(split(g)) is isomorphic to g, for EVERY heap and root (cycles, self references, shared Variables, nested
    containers): ri numbers the reachable reference objects without repetition, the rebuilt heap has exactly one cell
@@ -25,6 +25,19 @@ Print Assumptions C03_roundtrip_paths.
 Theorem C03_numbering_injective : forall l1 l2 ri i, index_of l1 ri = Some i -> index_of l2 ri = Some i -> l1 = l2.
 Proof. exact index_of_inj. Qed.
 Print Assumptions C03_numbering_injective.
+
+(* (graphdef, leaves) is a canonical form: heaps related by ANY injective renaming of the reachable objects flatten to the
+   same graphdef and leaves; in particular flatten after unflatten gives back exactly what was unflattened *)
+Theorem C03_flatten_iso : forall phi (D : loc -> Prop) h h' v g ls g' ls',
+  (forall a b, D a -> D b -> phi a = phi b -> a = b) ->
+  (forall l, D l -> exists o, nth_error h l = Some o /\ nth_error h' (phi l) = Some (relocate_obj phi o) /\ closed_obj D o) ->
+  closed_val D v -> flatten h v = Some (g, ls) -> flatten h' (relocate phi v) = Some (g', ls') -> g = g' /\ ls = ls'.
+Proof. exact flatten_iso. Qed.
+Print Assumptions C03_flatten_iso.
+Theorem C03_flatten_unflatten_id : forall h v g ls, flatten h v = Some (g, ls) ->
+  exists h' v', unflatten g (map snd ls) = Some (h', v') /\ forall g' ls', flatten h' v' = Some (g', ls') -> g' = g /\ ls' = ls.
+Proof. exact flatten_unflatten_id. Qed.
+Print Assumptions C03_flatten_unflatten_id.
 
 (* splitting with filters partitions the leaves: nothing lost or duplicated, each leaf in the state of its first
    matching filter and in no other; a leaf no filter matches makes split raise *)
